@@ -33,9 +33,10 @@ contract(f"{OPS}/ws2dpgu.py::ws2dpgu", variant="rel", fmodel="U",
     options={"rel_vary": ["y", "nodata"]}, call_variant={"ws2d": "U"}, props=("C02",))
 
 REL = [f"{OPS}/ws2dgu.py::ws2dgu@rel", f"{OPS}/ws2dpgu.py::ws2dpgu@rel"]
-# robust=True is not covered relationally: after the boolean-mask selection r_arr[w_temp != 0] the lockstep similarity of the
-# selections (np.median over a data-dependent length) is not provable by the per-statement lemmas and the run pairs diverge
-# (>60 open queries); the robust branch stays with the bounded stand-in (standin/c02.py, DESIGN.md section 0).
+# robust=True is registered (variant rel_robust) but NOT claimed: with lockstep unrolling of the four re-weighting rounds, on-demand
+# pairing of the arrays handed to np.median / np.max and argument-wise congruence the first two rounds go through, the third (the
+# single-lambda scan over np.array([robust_gcv[1][1]])) still loses the lockstep (> 60 open similarity queries).  The robust branch
+# stays with the bounded stand-in (standin/c02.py, standin/c05.py; DESIGN.md section 0.2).
 for rb, tag in (("const(False)", "rel"), ("const(True)", "rel_robust")):
     contract(f"{OPS}/ws2dwcv.py::ws2dwcv", variant=tag, fmodel="U",
         params={"y": "real[N]", "nodata": "real", "llas": "real[M]", "robust": rb, "out": "i2[N]", "lopt": "real[1]"}, modifies=["out", "lopt"],
